@@ -39,6 +39,11 @@ FITS = {
            "method": "nelder", "method_kws": {"max_nfev": 300}},
     "f5": {"model_key": "hertz_para", "optimal_fit_edelta": True,
            "optimal_fit_num_samples": 7, "range_x": [-8e-7, 1e-6]},
+    # interval limits computed from data: numpy scalars with all their
+    # digits (marker "__np__": converted to numpy.float64 at call time)
+    "f6": {"model_key": "hertz_para",
+           "range_x": {"__np__": [-7.123456789012345e-07,
+                                  4.987654321098765e-07]}},
 }
 USERS = {"u1": ("alice", 5, "ok"), "u2": ("bob", 2, "hm, é")}
 
@@ -80,7 +85,11 @@ def fitted(cname, fname):
         idnt = IndentationGroup(os.path.join(FIX_DIR, fn))[en]
         if cname != "C0":
             idnt.apply_preprocessing(list(P1))
-        idnt.fit_model(**json.loads(json.dumps(FITS[fname])))
+        kw = json.loads(json.dumps(FITS[fname]))
+        for k_, v_ in list(kw.items()):
+            if isinstance(v_, dict) and set(v_) == {"__np__"}:
+                kw[k_] = tuple(np.float64(x_) for x_ in v_["__np__"])
+        idnt.fit_model(**kw)
         _FITTED[key] = (idnt, cn.indent_canon(idnt))
     return _FITTED[key][0]
 
@@ -380,7 +389,7 @@ class Driver(hist.Driver):
 DRIVERS = {
     "saves": Driver(),
     "saves_wide": Driver(curves=("A0", "B1", "C0"),
-                         fits=("f1", "f4", "f5"), users=("u1",),
+                         fits=("f1", "f4", "f5", "f6"), users=("u1",),
                          name="saves_wide"),
 }
 
